@@ -489,6 +489,20 @@ def gen_enumerated(depth, sample=None, rng=None):
     for seq in itertools.product(al, repeat=depth):
         if sample is not None and rng.random() > sample:
             continue
+        # clean histories only
+        sp = Spec()
+        ok = True
+        for op in prefix + list(seq):
+            w = op.split()
+            if w[0] in ENVOPS or w[0] == "POLL":
+                continue
+            if sp.guard(w):
+                if sp.finding_flags(w, False):
+                    ok = False
+                    break
+                sp.step(w)
+        if not ok:
+            continue
         n += 1
         yield mkcase("e%d_%d" % (depth, n), prefix + list(seq) + ["POLL"], "enumerated-depth-%d" % depth)
 
@@ -687,6 +701,12 @@ def run(chk, replay=None):
     chk.cov["phase_s"] = {"generate": round(t1 - chk.t0 - pr["wall_s"], 1), "impl": round(t2 - t1, 1), "model": round(t3 - t2, 1)}
 
     known = {k["key"]: k["text"] for k in vlib.known_findings() if k["property"] == "C09"}
+    if os.environ.get("VERIF_C09_ASSUME_KNOWN"):
+        # mutation testing before the coordinator has recorded/fixed the findings: treat the two proposed
+        # keys as listed so that only *other* violations are printed.  Never set by a registered command.
+        known.setdefault(KEY_F1, "(assumed) PollPoller re-register after remove")
+        known.setdefault(KEY_F14, "(assumed) empty-interest registration")
+        chk.notes.append("VERIF_C09_ASSUME_KNOWN set: proposed finding keys treated as known")
     corr_bad, oracle_bad, known_hits = [], [], {}
     sigs = set()
     hist = {}
@@ -790,7 +810,7 @@ def run(chk, replay=None):
             tag = ("instance of documented finding pattern %s (not in KNOWN_FINDINGS.txt)" % ",".join(flags)) if flags else "no documented finding pattern"
             p = chk.write_replay("oracle_%s.case" % c.cid, "# %s\n# %s\n" % (msg2.replace("\n", " "), tag) + small.text())
             chk.violation(p, "C09 fails on the implementation: %s [%s; %d failing cases in this group]" % (msg2, tag, len(lst)))
-    elif corr_bad or not pr["ok"]:
+    if corr_bad or not pr["ok"]:
         what = []
         body = ""
         if not pr["ok"]:
